@@ -2,7 +2,7 @@
 //! failure-free run, then one run per I/O call index k (and fault kind) with a fault at k. The
 //! program is not stopped at the first error: later calls, finish and Drop are still executed.
 
-use super::chunk::{read_outcome, stream_outcome, visit_outcome, EntryOut};
+use super::chunk::{open_outcome, read_outcome, stream_outcome, visit_outcome, EntryOut};
 use super::common::*;
 use super::prog::exec_full;
 use crate::indep::build::{build, Enc};
@@ -24,6 +24,9 @@ pub enum Kind {
     Stream,
     /// front-to-back through ZipStreamReader::visit (files, then the central directory's metadata)
     Visit,
+    /// ZipArchive::new alone (entry count, comment, names) on an archive with more than 65535 entries: the ZIP64
+    /// end record and its locator are then the only place that holds the real count
+    OpenMany,
 }
 
 #[derive(Serialize, Deserialize, Clone, Debug, PartialEq)]
@@ -189,7 +192,16 @@ impl Scenario for IoFault {
         let mut sources = vec![];
         let mut base = None;
         let max_content = *rs.pick(&[16u64, 300, 4096, 40_000]);
+        let many = Rng::derive(s, "open-many").chance(1, 300);
         let (kind, src) = match kind {
+            _ if many => {
+                let mut rm = Rng::derive(s, "open-many2");
+                let mut ops = vec![Op::Many { n: rm.pickc(&[65536u32, 65540, 70000]), prefix: "e".into() }];
+                if rm.chance(1, 2) {
+                    ops.push(Op::SetComment { c: crate::content::Hex(b"many".to_vec()) });
+                }
+                (Kind::OpenMany, Source::Prog(ops))
+            }
             0 => {
                 if rs.chance(1, 2) {
                     let mut s = gen_source(&mut r);
@@ -275,7 +287,7 @@ impl Scenario for IoFault {
                 faults.push(d);
             }
         }
-        let case = FaultCase { kind, src, sources, base, faults, bufs: gen_bufs(&mut r), k_range: None, on_src: rs.chance(1, 3), pair: tier == Tier::Thorough && rs.chance(1, 4) };
+        let case = FaultCase { k_range: if kind == Kind::OpenMany { Some((0, 64)) } else { None }, kind, src, sources, base, faults, bufs: gen_bufs(&mut r), on_src: rs.chance(1, 3), pair: tier == Tier::Thorough && rs.chance(1, 4) };
         serde_json::to_value(case).unwrap_or(Value::Null)
     }
 
@@ -417,7 +429,7 @@ impl Scenario for IoFault {
                 }
                 Verdict::Pass
             }
-            Kind::Reader | Kind::Stream | Kind::Visit => {
+            Kind::Reader | Kind::Stream | Kind::Visit | Kind::OpenMany => {
                 let (store0, passwords): (Shared, Vec<Option<Vec<u8>>>) = match &c.src {
                     Source::Prog(ops) => {
                         let store = shared_empty();
@@ -445,8 +457,11 @@ impl Scenario for IoFault {
                 let pw = |i: usize| passwords.get(i).cloned().flatten();
                 let stream = c.kind == Kind::Stream;
                 let visit = c.kind == Kind::Visit;
+                let open_many = c.kind == Kind::OpenMany;
                 let run_one = |pol: &Policy, io: &mut Option<IoH>| -> Result<Vec<EntryOut>, String> {
-                    if visit {
+                    if open_many {
+                        open_outcome(&store0, pol, io)
+                    } else if visit {
                         Ok(visit_outcome(&store0, pol, &c.bufs, io))
                     } else if stream {
                         Ok(stream_outcome(&store0, pol, &c.bufs, io))
@@ -463,7 +478,9 @@ impl Scenario for IoFault {
                     let disk = SimDisk::new(store0.clone(), pol.clone());
                     let io = disk.io.clone();
                     set_record(&io, true);
-                    if visit {
+                    if open_many {
+                        let _ = zip::ZipArchive::new(disk);
+                    } else if visit {
                         struct Nop<'a>(&'a [u32]);
                         impl zip::unstable::stream::ZipStreamVisitor for Nop<'_> {
                             fn visit_file(&mut self, f: &mut zip::read::ZipFile<'_>) -> zip::result::ZipResult<()> {
